@@ -23,7 +23,17 @@ trap cleanup EXIT
 if [ -n "$DEMO" ]; then
   ( cd "$WT" && PYTHONPATH="$WT" /venv/bin/python -W ignore "$DEMO" >/dev/null 2>&1 ); echo "demo on original code: rc=$?"
 fi
-git -C "$WT" apply "$PATCH" || { echo "PATCH DOES NOT APPLY"; exit 2; }
+if ! git -C "$WT" apply "$PATCH" 2>/dev/null; then
+  if git -C "$WT" apply --3way "$PATCH" >/dev/null 2>&1 && ! git -C "$WT" diff --name-only --diff-filter=U | grep -q .; then
+    echo "(patch applied with 3-way merge onto $(git -C /repo rev-parse --short HEAD))"
+  else
+    BASE="${SEED_BASE:-24c8056}"
+    echo "(patch does not apply to HEAD; using its base commit $BASE instead)"
+    git -C /repo worktree remove --force "$WT" >/dev/null 2>&1; rm -rf "$WT"
+    git -C /repo worktree add -q --detach "$WT" "$BASE" || exit 2
+    git -C "$WT" apply "$PATCH" || { echo "PATCH DOES NOT APPLY"; exit 2; }
+  fi
+fi
 if [ "$BASE" = 1 ]; then "$VERIF/tools/baseline.sh" "$WT"; fi
 if [ -n "$DEMO" ]; then
   ( cd "$WT" && PYTHONPATH="$WT" /venv/bin/python -W ignore "$DEMO" >/dev/null 2>&1 ); echo "demo with the change:  rc=$?"
